@@ -13,16 +13,16 @@ COQ_FALLBACK = ("Model.C08", "spec_ok")
 COQ_IMPORTS = ""
 SHARD = 150
 RULE = ("every mask of every shape with H*W <= 4 (quick) / <= 6 (thorough) x {masked-native with use_mask_in_fit, slim without} x "
-        "{no sky, sky offset} x {no inversion, all objects regularized, partially regularized, none regularized} (H*W in {5, 6}: "
-        "no inversion / partially regularized only), values "
+        "{no sky, sky offset} x {no inversion, all objects regularized, partially regularized, none regularized} (the largest "
+        "shapes of a tier: no inversion / partially regularized only), values "
         "random dyadic (noise in {1/4..8} on fitted pixels, garbage incl. 1e30 / 0 / negative noise in masked pixels), run "
         "through FitImaging / FitDataset subclasses on aa.Imaging datasets and a real AbstractInversion subclass; plus random "
         "larger shapes, every linear-object structure with <= 3 objects of 1-2 parameters (inversion terms), direct calls of "
         "every fit_util function on ndarrays / Array2D, and the three composition formulas on dyadic scalars. A case is "
         "non-trivial unless it is a bare composition call; distinct = distinct JSON input.")
 EXHAUSTIVE = {
-    "quick": "all masks of all shapes with H*W <= 4 x 2 modes x 2 sky settings x 4 inversion kinds; all object structures "
-             "(params in {1,2}, regularized or not) of length <= 3",
+    "quick": "all masks of all shapes with H*W <= 4 x 2 modes x 2 sky settings x inversion kinds (4 kinds for H*W <= 3; none / "
+             "partially regularized for H*W = 4); all object structures (params in {1,2}, regularized or not) of length <= 3",
     "thorough": "all masks of all shapes with H*W <= 6 x 2 modes x 2 sky settings x inversion kinds (4 kinds for H*W <= 4; "
                 "none / partially regularized for H*W in {5, 6}); all object structures (params in {1,2}, regularized or not) "
                 "of length <= 4",
@@ -150,7 +150,7 @@ def gen_inputs(tier, rng):
         for bits in itertools.product([0, 1], repeat=h * w):
             for mode in ("native", "slim"):
                 for sky in (0.0, None):
-                    for invkind in (("noinv", "all", "partial", "none") if h * w <= 4 else ("noinv", "partial")):
+                    for invkind in (("noinv", "all", "partial", "none") if h * w <= (4 if big else 3) else ("noinv", "partial")):
                         i += 1
                         via = vias[i % 3] if sky == 0.0 else "imaging"
                         s = 0.0 if sky == 0.0 else rng.choice(SKIES)
